@@ -476,8 +476,13 @@ func (c *caseCtx) check(p *pass) {
 			}
 		}
 		// slots touched only by frames that failed keep their pre-state value
-		for ab, slots := range tc.slotsSeen {
-			a := common.Bytes20ToAddress(ab, loc)
+		abs := make([]common.AddressBytes, 0, len(tc.slotsSeen))
+		for ab := range tc.slotsSeen {
+			abs = append(abs, ab)
+		}
+		sort.Slice(abs, func(i, j int) bool { return bytes.Compare(abs[i][:], abs[j][:]) < 0 })
+		for _, ab := range abs {
+			a, slots := common.Bytes20ToAddress(ab, loc), tc.slotsSeen[ab]
 			keys := make([]common.Hash, 0, len(slots))
 			for s := range slots {
 				keys = append(keys, s)
